@@ -8,6 +8,7 @@
 EXTENDS HpkeKem, Json
 
 CONSTANTS KemSet,
+          IkmSweep,      \* every ikm length 0..IkmSweep
           NIkm,          \* number of seeded 32..66-byte ikm values per KEM besides the length classes
           SmallOrder,    \* TRUE: also offer the X25519 small-order encodings as peer keys
           Emit
@@ -32,7 +33,7 @@ RejectionWitnesses(kem) ==
     IF kem = KEM_P256
     THEN {Lit(<<13, 0, 0, 0, 0, 5, 26, 207, 41>>)} \cup MoreWitnesses
     ELSE {}
-Ikms(kem) == RejectionWitnesses(kem) \cup {Leaf("ikmlen" \o ToString(n), n) : n \in IkmLens(kem)}
+Ikms(kem) == RejectionWitnesses(kem) \cup {Leaf("ikmlen" \o ToString(n), n) : n \in IkmLens(kem) \cup 0..IkmSweep}
              \cup {Leaf("ikm" \o ToString(i) \o "k" \o ToString(kem), Nsk(kem)) : i \in 1..NIkm}
 
 KP(name, kem) == DeriveKeyPair(kem, Leaf("ikm" \o name \o ToString(kem), Nsk(kem)))
